@@ -407,7 +407,11 @@ func runBatch(o *SupOpts, p *Prop, bs *batchState, nb int, workDir string, limit
 			for k := 0; k < 3; k++ {
 				args1 := []string{"work", "-prop", o.Prop, "-tier", o.Tier.String(), "-seed", strconv.FormatUint(o.Seed, 10),
 					"-batch", strconv.Itoa(bs.idx), "-nbatches", strconv.Itoa(nb), "-only", strconv.FormatInt(ord, 10), "-root", o.Root, "-quiet"}
-				to, _ := runChild(o, args1, logp+".confirm", 20*time.Second+limit/10, nil)
+				confirm := 20*time.Second + limit/10
+				if p.ConfirmTimeoutS > 0 {
+					confirm = time.Duration(p.ConfirmTimeoutS) * time.Second
+				}
+				to, _ := runChild(o, args1, logp+".confirm", confirm, nil)
 				if to {
 					hung++
 				}
